@@ -378,6 +378,8 @@ impl Prop for C09 {
             GenSpec::random("chains", tier.pick(10_000, 400_000)),
             GenSpec::random("arrays", tier.pick(20_000, 600_000)),
             GenSpec::random("cyclic", tier.pick(40, 600)).isolated(),
+            // two placements, on two threads, of two libraries that share a cell; the first is stalled inside that cell
+            GenSpec::random("shared-cell", tier.pick(8, 80)),
         ]
     }
     fn run_case(&self, cx: &mut Cx) {
@@ -502,6 +504,56 @@ impl Prop for C09 {
                     }
                 }
                 cx.sample(|| json!({"count": count, "pitch": pitch, "nested": nested, "reflect": [rh, rv]}));
+            }
+            "shared-cell" => {
+                // Cells are shared between libraries through `Ptr`. Library A and library B both hold `block` (instances a: absolute, b: right of
+                // a). Placement of A is stalled inside `block` (this thread holds a read guard on b, the placer needs to write it); placement
+                // of B runs meanwhile. B may wait for A; if it REPORTS SUCCESS while b is still relatively placed, "after placement every
+                // instance of every cell has an absolute location" is false at that moment for B's own cell.
+                cx.eval();
+                let (w, h) = (cx.rng.range(1, 40), cx.rng.range(1, 40));
+                cx.nontrivial((w * 64 + h) as u64 ^ 0x5a5a);
+                let unit: Ptr<Cell> = Ptr::new(Cell::from(Layout::new("unit", 0, Outline::rect(w as isize, h as isize).unwrap())));
+                let mut block = Layout::new("block", 0, Outline::rect(500, 500).unwrap());
+                let a = block.instances.add(Instance { inst_name: "a".into(), cell: unit.clone(), loc: Place::Abs(Xy::new(PrimPitches::x(5), PrimPitches::y(5))), reflect_horiz: false, reflect_vert: false });
+                let b = block.instances.add(Instance { inst_name: "b".into(), cell: unit.clone(), loc: Place::Rel(RelativePlace { to: Placeable::Instance(a.clone()), side: Side::Right, align: Align::Side(Side::Bottom), sep: Separation::new(None, None, None) }), reflect_horiz: false, reflect_vert: false });
+                let block: Ptr<Cell> = Ptr::new(Cell::from(block));
+                let mk = |name: &str| {
+                    let mut l = Library::new(name);
+                    l.cells.push(unit.clone());
+                    l.cells.push(block.clone());
+                    l
+                };
+                let (lib_a, lib_b) = (mk("A"), mk("B"));
+                let stall = b.read().unwrap();
+                let (tx, rx) = std::sync::mpsc::channel::<bool>();
+                let verdict = std::thread::scope(|sc| {
+                    let ha = sc.spawn(move || guard(|| Placer::place(lib_a, empty_stack()).is_ok()));
+                    std::thread::sleep(std::time::Duration::from_millis(40));
+                    let hb = sc.spawn(move || {
+                        let r = guard(|| Placer::place(lib_b, empty_stack()).is_ok());
+                        let _ = tx.send(matches!(r, Ok(true)));
+                        r
+                    });
+                    // does B come back while A is still stalled?
+                    let early = rx.recv_timeout(std::time::Duration::from_millis(300)).ok();
+                    let still_relative = matches!(stall.loc, Place::Rel(_));
+                    drop(stall);
+                    let (ra, rb) = (ha.join(), hb.join());
+                    (early, still_relative, ra, rb)
+                });
+                match verdict {
+                    (Some(true), true, _, _) => cx.violation("shared-cell|success-reported-while-an-instance-is-still-relative", json!({"unit": [w, h]})),
+                    (_, _, Ok(Ok(true)), Ok(Ok(true))) => {
+                        let loc = b.read().unwrap().loc.clone();
+                        match loc {
+                            Place::Abs(xy) if (xy.x.num as i64, xy.y.num as i64) == (5 + w, 5) => cx.count("shared_cell_placements_ok"),
+                            Place::Abs(xy) => cx.violation("shared-cell|wrong-location", json!({"want": [5 + w, 5], "got": [xy.x.num, xy.y.num]})),
+                            Place::Rel(_) => cx.violation("shared-cell|instance-left-relative", json!({})),
+                        }
+                    }
+                    (_, _, ra, rb) => cx.violation("shared-cell|placement-failed", json!({"a": format!("{:?}", ra.map(|r| r.map_err(|c| c.msg))).chars().take(200).collect::<String>(), "b": format!("{:?}", rb.map(|r| r.map_err(|c| c.msg))).chars().take(200).collect::<String>()})),
+                }
             }
             "cyclic" => {
                 cx.eval();
